@@ -80,27 +80,28 @@ theorem dict_signature_items (cfg1 cfg2 : Nat → List Nat) (mt1 mt2 : Nat → O
 /-! ## nodes -/
 
 /-- the stream hashed for a node is a function of its signature parts. -/
-theorem node_stream_of_signature (cfg : Nat → List Nat) (mt : Nat → Option Bool) (self : Nat) (nd : Node) :
-    nodeStream cfg mt self nd
-      = 0 :: (taskPart cfg self nd ++ (nd.typeId ++ encArgs (sigArgs cfg mt nd))) :=
-  nodeStream_eq cfg mt self nd
+theorem node_stream_of_signature (cfg : Nat → List Nat) (ceq : Nat → Nat → Bool) (mt : Nat → Option Bool) (self : Nat)
+    (nd : Node) :
+    nodeStream cfg ceq mt self nd
+      = 0 :: (taskPart cfg self nd ++ (nd.typeId ++ encArgs (sigArgs cfg ceq mt nd))) :=
+  nodeStream_eq cfg ceq mt self nd
 
 /-- **node stream injectivity**: two nodes (possibly of different graphs) whose classes declare the same
     argument types whenever their type identifiers agree (`hτ`; in particular two nodes of one class
     library), with control-free type identifiers and well-typed included arguments of unambiguous types:
     equal streams ⇒ same producing-task part, same type identifier, same sorted list of
     (name, signature value) of the included arguments. -/
-theorem node_stream_injective (τ1 τ2 : List Nat → STy) (cfg1 cfg2 : Nat → List Nat)
+theorem node_stream_injective (τ1 τ2 : List Nat → STy) (cfg1 cfg2 : Nat → List Nat) (ceq1 ceq2 : Nat → Nat → Bool)
     (mt1 mt2 : Nat → Option Bool) (self1 self2 : Nat) (nd1 nd2 : Node)
     (hc1 : ∀ m, wtObj (cfg1 m)) (hc2 : ∀ m, wtObj (cfg2 m))
     (ht1 : noTag nd1.typeId) (ht2 : noTag nd2.typeId)
     (hτ : nd1.typeId = nd2.typeId → τ1 = τ2)
     (hw1 : ArgsTyped τ1 mt1 nd1) (hw2 : ArgsTyped τ2 mt2 nd2)
-    (h : nodeStream cfg1 mt1 self1 nd1 = nodeStream cfg2 mt2 self2 nd2) :
+    (h : nodeStream cfg1 ceq1 mt1 self1 nd1 = nodeStream cfg2 ceq2 mt2 self2 nd2) :
     taskPart cfg1 self1 nd1 = taskPart cfg2 self2 nd2 ∧ nd1.typeId = nd2.typeId ∧
-      sigArgs cfg1 mt1 nd1 = sigArgs cfg2 mt2 nd2 :=
-  nodeStream_inj τ1 τ2 cfg1 cfg2 mt1 mt2 self1 self2 nd1 nd2 hc1 hc2 ht1 ht2 hτ
-    (wtArgs_of_typed τ1 cfg1 mt1 hc1 nd1 hw1) (wtArgs_of_typed τ2 cfg2 mt2 hc2 nd2 hw2) h
+      sigArgs cfg1 ceq1 mt1 nd1 = sigArgs cfg2 ceq2 mt2 nd2 :=
+  nodeStream_inj τ1 τ2 cfg1 cfg2 ceq1 ceq2 mt1 mt2 self1 self2 nd1 nd2 hc1 hc2 ht1 ht2 hτ
+    (wtArgs_of_typed τ1 cfg1 ceq1 mt1 hc1 nd1 hw1) (wtArgs_of_typed τ2 cfg2 ceq2 mt2 hc2 nd2 hw2) h
 
 /-! ## identifiers (ideal hash) -/
 
@@ -108,8 +109,8 @@ theorem node_stream_injective (τ1 τ2 : List Nat → STy) (cfg1 cfg2 : Nat → 
     references below the node: cycle reference or digest token). -/
 theorem raw_identifier_stream (hc : HC Nat) (hinj : ∀ a b, hc.H a = hc.H b → a = b) (g1 g2 : Graph) (n1 n2 : Nat)
     (h : rawId hc g1 n1 = rawId hc g2 n2) :
-    nodeStream (cfgAt hc g1 g1.size [n1]) g1.mt n1 (g1.node n1)
-      = nodeStream (cfgAt hc g2 g2.size [n2]) g2.mt n2 (g2.node n2) :=
+    nodeStream (cfgAt hc g1 g1.size [n1]) (ceqAt hc g1 g1.size [n1]) g1.mt n1 (g1.node n1)
+      = nodeStream (cfgAt hc g2 g2.size [n2]) (ceqAt hc g2 g2.size [n2]) g2.mt n2 (g2.node n2) :=
   rawAt_stream hc hinj g1 g2 g1.size g2.size [] [] n1 n2 h
 
 /-- **raw identifier ⇒ signature of the node, one level**, at any point of the computation (`rawId` is the
@@ -125,7 +126,8 @@ theorem raw_identifier_signature_step (hc : HC Nat) (hinj : ∀ a b, hc.H a = hc
     (h : rawAt hc g1 (f1 + 1) s1 n1 = rawAt hc g2 (f2 + 1) s2 n2) :
     taskPart (cfgAt hc g1 f1 (n1 :: s1)) n1 (g1.node n1) = taskPart (cfgAt hc g2 f2 (n2 :: s2)) n2 (g2.node n2) ∧
     (g1.node n1).typeId = (g2.node n2).typeId ∧
-    sigArgs (cfgAt hc g1 f1 (n1 :: s1)) g1.mt (g1.node n1) = sigArgs (cfgAt hc g2 f2 (n2 :: s2)) g2.mt (g2.node n2) :=
+    sigArgs (cfgAt hc g1 f1 (n1 :: s1)) (ceqAt hc g1 f1 (n1 :: s1)) g1.mt (g1.node n1)
+      = sigArgs (cfgAt hc g2 f2 (n2 :: s2)) (ceqAt hc g2 f2 (n2 :: s2)) g2.mt (g2.node n2) :=
   rawAt_inj_step hc hinj hemb τ1 τ2 g1 g2 f1 f2 s1 s2 n1 n2 hs1 hs2 ht1 ht2 hτ hw1 hw2 h
 
 /-- **different signatures never share a raw identifier** (contrapositive of the step, for `rawId`): if the
@@ -138,7 +140,8 @@ theorem different_signature_different_raw_identifier (hc : HC Nat) (hinj : ∀ a
     (hw1 : ArgsTyped τ1 g1.mt (g1.node n1)) (hw2 : ArgsTyped τ2 g2.mt (g2.node n2))
     (hd : (g1.node n1).typeId ≠ (g2.node n2).typeId ∨
       taskPart (cfgAt hc g1 g1.size [n1]) n1 (g1.node n1) ≠ taskPart (cfgAt hc g2 g2.size [n2]) n2 (g2.node n2) ∨
-      sigArgs (cfgAt hc g1 g1.size [n1]) g1.mt (g1.node n1) ≠ sigArgs (cfgAt hc g2 g2.size [n2]) g2.mt (g2.node n2)) :
+      sigArgs (cfgAt hc g1 g1.size [n1]) (ceqAt hc g1 g1.size [n1]) g1.mt (g1.node n1)
+        ≠ sigArgs (cfgAt hc g2 g2.size [n2]) (ceqAt hc g2 g2.size [n2]) g2.mt (g2.node n2)) :
     rawId hc g1 n1 ≠ rawId hc g2 n2 := by
   intro h
   have := rawAt_inj_step hc hinj hemb τ1 τ2 g1 g2 g1.size g2.size [] [] n1 n2 (by decide) (by decide)
@@ -150,23 +153,44 @@ theorem different_signature_different_raw_identifier (hc : HC Nat) (hinj : ∀ a
 
 /-- **the signature at every depth**: for graphs over one class library `lib` (type identifier ↦ argument
     name ↦ unambiguous type), equal raw identifiers under the ideal hash ⇒ equal raw identifiers under *every*
-    hash structure `hc'` (arbitrary digest type, no assumption): the two configurations agree on everything
-    any identifier of this family can depend on — type identifiers, producing tasks, included argument names
-    and values, recursively through all nested configurations and cycle references. -/
+    hash structure `hc'` (arbitrary digest type) that takes the same default decisions: the two configurations
+    agree on everything any identifier of this family can depend on — type identifiers, producing tasks, included
+    argument names and values, recursively through all nested configurations and cycle references.
+    `DefaultsSeparated hc hc' g` (Proofs/InjectDeep.lean): whenever `_is_default` run with `hc'` finds that a value
+    has the identifier of a configuration of a declared default, it does so with `hc` too (the converse is part
+    of the conclusion).  It is the only assumption on `hc'`; it is needed because which parameters are *in* the
+    signature is now decided by comparing identifiers (a colliding `hc'` may skip a parameter that the ideal
+    hash keeps), and it is vacuous when no declared default contains a configuration object
+    (`raw_identifier_signature_every_depth_noCfgDefaults`: the former statement). -/
 theorem raw_identifier_signature_every_depth {D' : Type} (hc : HC Nat) (hinj : ∀ a b, hc.H a = hc.H b → a = b)
     (hemb : ∀ d, hc.emb d = [256 + d]) (hc' : HC D') (lib : List Nat → List Nat → STy) (g1 g2 : Graph)
-    (hg1 : LibTyped lib g1) (hg2 : LibTyped lib g2) (hz1 : g1.size + 1 < 2^64) (hz2 : g2.size + 1 < 2^64)
+    (hg1 : LibTyped lib g1) (hg2 : LibTyped lib g2)
+    (hd1 : DefaultsSeparated hc hc' g1) (hd2 : DefaultsSeparated hc hc' g2)
+    (hz1 : g1.size + 1 < 2^64) (hz2 : g2.size + 1 < 2^64)
     (n1 n2 : Nat) (h : rawId hc g1 n1 = rawId hc g2 n2) : rawId hc' g1 n1 = rawId hc' g2 n2 :=
-  rawAt_hash_independent hc hinj hemb hc' lib (g1.size + 1) (g2.size + 1) g1 g2 [] [] n1 n2 hg1 hg2
+  rawAt_hash_independent hc hinj hemb hc' lib (g1.size + 1) (g2.size + 1) g1 g2 [] [] n1 n2 hg1 hg2 hd1 hd2
     (by simpa using hz1) (by simpa using hz2) h
+
+/-- the statement as it was before defaults could be configuration objects: for graphs in which no declared
+    default contains a configuration object, `hc'` is arbitrary (no assumption). -/
+theorem raw_identifier_signature_every_depth_noCfgDefaults {D' : Type} (hc : HC Nat)
+    (hinj : ∀ a b, hc.H a = hc.H b → a = b)
+    (hemb : ∀ d, hc.emb d = [256 + d]) (hc' : HC D') (lib : List Nat → List Nat → STy) (g1 g2 : Graph)
+    (hg1 : LibTyped lib g1) (hg2 : LibTyped lib g2) (hn1 : NoCfgDefault g1) (hn2 : NoCfgDefault g2)
+    (hz1 : g1.size + 1 < 2^64) (hz2 : g2.size + 1 < 2^64)
+    (n1 n2 : Nat) (h : rawId hc g1 n1 = rawId hc g2 n2) : rawId hc' g1 n1 = rawId hc' g2 n2 :=
+  raw_identifier_signature_every_depth hc hinj hemb hc' lib g1 g2 hg1 hg2
+    (.of_noCfgDefaults hc hc' hn1) (.of_noCfgDefaults hc hc' hn2) hz1 hz2 n1 n2 h
 
 /-- in particular: equal raw identifiers ⇒ equal *fully expanded* streams (`expandHC`: nothing digested,
     every nested configuration inlined between brackets). -/
 theorem raw_identifier_determines_expanded_stream (hc : HC Nat) (hinj : ∀ a b, hc.H a = hc.H b → a = b)
     (hemb : ∀ d, hc.emb d = [256 + d]) (lib : List Nat → List Nat → STy) (g1 g2 : Graph)
-    (hg1 : LibTyped lib g1) (hg2 : LibTyped lib g2) (hz1 : g1.size + 1 < 2^64) (hz2 : g2.size + 1 < 2^64)
+    (hg1 : LibTyped lib g1) (hg2 : LibTyped lib g2)
+    (hd1 : DefaultsSeparated hc expandHC g1) (hd2 : DefaultsSeparated hc expandHC g2)
+    (hz1 : g1.size + 1 < 2^64) (hz2 : g2.size + 1 < 2^64)
     (n1 n2 : Nat) (h : rawId hc g1 n1 = rawId hc g2 n2) : rawId expandHC g1 n1 = rawId expandHC g2 n2 :=
-  raw_identifier_signature_every_depth hc hinj hemb expandHC lib g1 g2 hg1 hg2 hz1 hz2 n1 n2 h
+  raw_identifier_signature_every_depth hc hinj hemb expandHC lib g1 g2 hg1 hg2 hd1 hd2 hz1 hz2 n1 n2 h
 
 /-- **full identifier**: equal full identifiers ⇒ equal raw identifier, equal sorted pre-task identifiers,
     equal sequence of init-task identifiers (the `0c` marker separates; digests are tokens `≥ 256`). -/
@@ -194,13 +218,190 @@ theorem full_identifier_signature_every_depth {D' : Type} (hc : HC Nat) (hinj : 
     (trans : ∀ a b c, hc'.le a b = true → hc'.le b c = true → hc'.le a c = true)
     (antisymm : ∀ a b, hc'.le a b = true → hc'.le b a = true → a = b)
     (lib : List Nat → List Nat → STy) (g1 g2 : Graph)
-    (hg1 : LibTyped lib g1) (hg2 : LibTyped lib g2) (hz1 : g1.size + 1 < 2^64) (hz2 : g2.size + 1 < 2^64)
+    (hg1 : LibTyped lib g1) (hg2 : LibTyped lib g2)
+    (hd1 : DefaultsSeparated hc hc' g1) (hd2 : DefaultsSeparated hc hc' g2)
+    (hz1 : g1.size + 1 < 2^64) (hz2 : g2.size + 1 < 2^64)
     (n1 n2 : Nat) (h : fullId hc g1 n1 = fullId hc g2 n2) : fullId hc' g1 n1 = fullId hc' g2 n2 :=
-  fullId_hash_independent hc hinj hemb hc' total trans antisymm lib g1 g2 hg1 hg2 hz1 hz2 n1 n2 h
+  fullId_hash_independent hc hinj hemb hc' total trans antisymm lib g1 g2 hg1 hg2 hd1 hd2 hz1 hz2 n1 n2 h
+
+/-- the former statement: no assumption on `hc'` besides the order, for graphs in which no declared default
+    contains a configuration object. -/
+theorem full_identifier_signature_every_depth_noCfgDefaults {D' : Type} (hc : HC Nat)
+    (hinj : ∀ a b, hc.H a = hc.H b → a = b)
+    (hemb : ∀ d, hc.emb d = [256 + d]) (hc' : HC D')
+    (total : ∀ a b, hc'.le a b = true ∨ hc'.le b a = true)
+    (trans : ∀ a b c, hc'.le a b = true → hc'.le b c = true → hc'.le a c = true)
+    (antisymm : ∀ a b, hc'.le a b = true → hc'.le b a = true → a = b)
+    (lib : List Nat → List Nat → STy) (g1 g2 : Graph)
+    (hg1 : LibTyped lib g1) (hg2 : LibTyped lib g2) (hn1 : NoCfgDefault g1) (hn2 : NoCfgDefault g2)
+    (hz1 : g1.size + 1 < 2^64) (hz2 : g2.size + 1 < 2^64)
+    (n1 n2 : Nat) (h : fullId hc g1 n1 = fullId hc g2 n2) : fullId hc' g1 n1 = fullId hc' g2 n2 :=
+  full_identifier_signature_every_depth hc hinj hemb hc' total trans antisymm lib g1 g2 hg1 hg2
+    (.of_noCfgDefaults hc hc' hn1) (.of_noCfgDefaults hc hc' hn2) hz1 hz2 n1 n2 h
 
 /-- the ideal-hash hypotheses are consistent: `idealHC` satisfies them. -/
 theorem ideal_hash_exists : ∃ hc : HC Nat, (∀ a b, hc.H a = hc.H b → a = b) ∧ ∀ d, hc.emb d = [256 + d] :=
   ⟨idealHC, idealHC_inj, idealHC_emb⟩
+
+/-! ## configuration-valued defaults -/
+
+/-- **a parameter with a configuration default is in the signature iff its value does not have the identifier of
+    the default** (ideal hash: digests are atomic tokens, so equal embedded digests are equal digests).
+    `a` reaches the default rule (not ignored, not generated, not constant), its value is a configuration `v`
+    that is not flagged `meta = True` and is not being hashed; the default object `d` is not being hashed either
+    (it never is in the real code).  Both identifiers are those computed in the context `n :: stack` in which
+    the node is hashed. -/
+theorem config_default_iff (hc : HC Nat) (hemb : ∀ d, hc.emb d = [256 + d]) (g : Graph) (fuel : Nat)
+    (stack : List Nat) (n : Nat) (a : Arg) (d v : Nat)
+    (hi : ignoredOut g.mt a = false) (hg : a.generator = false) (hcst : a.constant = false)
+    (hm : metaOut g.mt a = false)
+    (hd : a.default = some (.ref d)) (hv : a.value = .ref v)
+    (hds : relIndex (n :: stack) d = none) (hvs : relIndex (n :: stack) v = none) :
+    included (ceqAt hc g fuel (n :: stack)) g.mt a = true ↔
+      rawAt hc g fuel (n :: stack) d ≠ rawAt hc g fuel (n :: stack) v := by
+  have hdo : defaultOut (ceqAt hc g fuel (n :: stack)) g.mt a
+      = decide (rawAt hc g fuel (n :: stack) d = rawAt hc g fuel (n :: stack) v) := by
+    simp only [defaultOut, hcst, hd, hv, removeMeta, isDefault, ceqAt_off_stack hc g fuel _ d v hds hvs, hemb]
+    simp only [Bool.not_false, Option.isNone_some, Bool.and_false, Bool.false_or, Bool.true_and]
+    rw [Bool.eq_iff_iff]
+    simp only [beq_iff_eq, cons.injEq, and_true, decide_eq_true_eq]
+    omega
+  simp only [included, hi, hg, hm, hdo]
+  simp
+
+/-- the same in terms of signatures (ideal hash, `H` injective): the parameter is in the signature iff the
+    streams hashed for the value and for the default object differ — e.g. because their types, one of their
+    included parameters, or *the tasks that produced them* differ. -/
+theorem config_default_iff_stream (hc : HC Nat) (hinj : ∀ a b, hc.H a = hc.H b → a = b)
+    (hemb : ∀ d, hc.emb d = [256 + d]) (g : Graph) (fuel : Nat)
+    (stack : List Nat) (n : Nat) (a : Arg) (d v : Nat)
+    (hi : ignoredOut g.mt a = false) (hg : a.generator = false) (hcst : a.constant = false)
+    (hm : metaOut g.mt a = false)
+    (hd : a.default = some (.ref d)) (hv : a.value = .ref v)
+    (hds : relIndex (n :: stack) d = none) (hvs : relIndex (n :: stack) v = none) :
+    included (ceqAt hc g (fuel + 1) (n :: stack)) g.mt a = true ↔
+      nodeStream (cfgAt hc g fuel (d :: n :: stack)) (ceqAt hc g fuel (d :: n :: stack)) g.mt d (g.node d)
+        ≠ nodeStream (cfgAt hc g fuel (v :: n :: stack)) (ceqAt hc g fuel (v :: n :: stack)) g.mt v (g.node v) := by
+  rw [config_default_iff hc hemb g (fuel + 1) stack n a d v hi hg hcst hm hd hv hds hvs, rawAt_succ, rawAt_succ]
+  constructor
+  · intro h e; exact h (by rw [e])
+  · intro h e; exact h (hinj _ _ e)
+
+/-! **finding F34** (kernel-checked witness): `class Model(Config): k: Param[int]`,
+    `class Evaluate(Task): model: Param[Model] = Model(k=1)`, `class Learn(Task)` whose output is a `Model`.
+    Node 2 is the default object of `Evaluate.model`; node 0 is `Evaluate()` (its value is node 3, the clone made
+    by `__init__`); node 1 is `Evaluate(model = Learn().submit())` (node 4: a `Model(k=1)` *produced by task* 5).
+    With the rule of the current source (`_is_default`: identifiers) the two evaluations are hashed differently;
+    with the former rule (`default == value`, i.e. `TypeConfig.__eq__`: same class, same parameter values, the
+    producing task is not compared) the parameter is skipped in both and they collide — same identifier, same
+    job directory, for every hash. -/
+def argModel (v : Nat) : Arg := { name := [109], required := false, default := some (.ref 2), value := .ref v }
+def nodeModel (t : Option Nat) : Node := { typeId := [77], args := [{ name := [107], value := .int 1 }], task := t }
+def gEval : Graph := { nodes := [
+  { typeId := [69], args := [argModel 3] }, { typeId := [69], args := [argModel 4] },
+  nodeModel none, nodeModel none, nodeModel (some 5),
+  { typeId := [76], args := [{ name := [115], value := .int 1 }] }] }
+
+/-- `TypeConfig.__eq__`-like comparison of two configurations: same class and pairwise equal parameter
+    values (Python `==`); the producing task is ignored. -/
+def oldCeq (g : Graph) (d v : Nat) : Bool :=
+  (g.node d).typeId == (g.node v).typeId &&
+    pyEqL ((g.node d).args.map (·.value)) ((g.node v).args.map (·.value))
+
+/-- `Evaluate(model = <clone of the default, produced by task T>)` is hashed differently from `Evaluate()`:
+    their fully expanded streams differ (`expandHC`: injective, nothing digested), … -/
+theorem config_default_producer_included :
+    rawId expandHC gEval 0 ≠ rawId expandHC gEval 1 ∧ fullId expandHC gEval 0 ≠ fullId expandHC gEval 1
+    ∧ argStream (cfgAt expandHC gEval 6 [0]) (ceqAt expandHC gEval 6 [0]) gEval.mt (argModel 3) = []
+    ∧ argStream (cfgAt expandHC gEval 6 [1]) (ceqAt expandHC gEval 6 [1]) gEval.mt (argModel 4) ≠ [] := by decide
+
+/-- … whereas with the former rule both parameters are skipped and the two streams are equal, whatever the
+    encoding of references: the two evaluations collided under every hash. -/
+theorem config_default_producer_old_rule_collision (cfg : Nat → List Nat) :
+    nodeStream cfg (oldCeq gEval) gEval.mt 0 (gEval.node 0) = nodeStream cfg (oldCeq gEval) gEval.mt 1 (gEval.node 1)
+    ∧ argStream cfg (oldCeq gEval) gEval.mt (argModel 4) = [] := by
+  constructor <;> rfl
+
+/-- the hypotheses of `config_default_iff` are satisfiable (node 1 of `gEval`, toy ideal-like hash with atomic
+    digests), and the equivalence is not trivial: included for the produced model, skipped for the clone. -/
+example : (included (ceqAt expandHC gEval 6 [1]) gEval.mt (argModel 4) = true) ∧
+    (included (ceqAt expandHC gEval 6 [0]) gEval.mt (argModel 3) = false) ∧
+    ignoredOut gEval.mt (argModel 4) = false ∧ metaOut gEval.mt (argModel 4) = false ∧
+    relIndex [1] 2 = none ∧ relIndex [1] 4 = none := by decide
+
+/-! **why `DefaultsSeparated` is needed** in `raw_identifier_signature_every_depth` (kernel-checked): two graphs over
+    one class library — `A(x = B(k=1))` where the default object of `A.x` is `B(k=5)` in the first graph and `B(k=7)` in
+    the second — have the same raw identifier under *every* ideal hash (the parameter is included in both), but
+    different raw identifiers under the hash structure `collHC` in which the streams of `B(k=5)` and `B(k=1)` collide
+    (the parameter is then skipped in the first graph only).  All the hypotheses of the former statement hold. -/
+def gSep (k : Int) : Graph := { nodes := [
+  { typeId := [65], args := [{ name := [120], required := false, default := some (.ref 1), value := .ref 2 }] },
+  { typeId := [66], args := [{ name := [107], value := .int k }] },
+  { typeId := [66], args := [{ name := [107], value := .int 1 }] }] }
+
+/-- the stream hashed for `B(k)`. -/
+def sB (k : Int) : List Nat := 0 :: 66 :: 3 :: 107 :: 5 :: 1 :: packq k
+
+def aX : Arg := { name := [120], required := false, default := some (.ref 1), value := .ref 2 }
+
+def toyH (l : List Nat) : Nat := l.foldl (fun a b => (a * 31 + b + 1) % 1000003) 7
+
+/-- a hash structure with one collision: the stream of `B(k=5)` is hashed as the stream of `B(k=1)`. -/
+def collHC : HC Nat :=
+  { H := fun l => toyH (if l = sB 5 then sB 1 else l), emb := fun d => [256 + d], le := fun a b => a ≤ b }
+
+def libSep : List Nat → List Nat → STy := fun ty _ => if ty = [65] then .obj else .int
+
+theorem rawAt_sep_B (hc : HC Nat) (k : Int) (f : Nat) (s : List Nat) (n : Nat) (hn : n = 1 ∨ n = 2) :
+    rawAt hc (gSep k) (f + 1) s n = hc.H (sB (if n = 1 then k else 1)) := by
+  rcases hn with rfl | rfl <;> rfl
+
+theorem rawId_sep (hc : HC Nat) (hinj : ∀ a b, hc.H a = hc.H b → a = b) (hemb : ∀ d, hc.emb d = [256 + d]) (k : Int)
+    (hk : sB k ≠ sB 1) :
+    rawId hc (gSep k) 0 = hc.H (0 :: 65 :: 3 :: 120 :: 5 :: 0 :: [256 + hc.H (sB 1)]) := by
+  have hinc : included (ceqAt hc (gSep k) 3 [0]) (gSep k).mt aX = true := by
+    refine (config_default_iff hc hemb (gSep k) 3 [] 0 aX 1 2 rfl rfl rfl rfl rfl rfl (by decide) (by decide)).2 ?_
+    rw [rawAt_sep_B hc k 2 [0] 1 (.inl rfl), rawAt_sep_B hc k 2 [0] 2 (.inr rfl)]
+    intro h
+    exact hk (hinj _ _ h)
+  have hcfg : cfgAt hc (gSep k) 3 [0] 2 = [256 + hc.H (sB 1)] := by
+    simp only [cfgAt, relIndex]
+    rw [rawAt_sep_B hc k 2 [0] 2 (.inr rfl), hemb]
+    simp
+  show rawAt hc (gSep k) (3 + 1) [] 0 = _
+  rw [rawAt_succ]
+  congr 1
+  show nodeStream _ _ _ 0 { typeId := [65], args := [aX] } = _
+  simp only [nodeStream, sortBy, foldr, insertBy, map, argStream, hinc, if_true]
+  simp only [aX, encVal, hcfg]
+  rfl
+
+theorem libTyped_sep (k : Int) : LibTyped libSep (gSep k) := by
+  intro n
+  match n with
+  | 0 => exact ⟨by simp [gSep, Graph.node, noTag], by simp [ArgsTyped, gSep, Graph.node, libSep, noTag, VT, ok]⟩
+  | 1 => exact ⟨by simp [gSep, Graph.node, noTag], by simp [ArgsTyped, gSep, Graph.node, libSep, noTag, VT, ok]⟩
+  | 2 => exact ⟨by simp [gSep, Graph.node, noTag], by simp [ArgsTyped, gSep, Graph.node, libSep, noTag, VT, ok]⟩
+  | n + 3 => exact ⟨by simp [gSep, Graph.node, noTag], by simp [ArgsTyped, gSep, Graph.node]⟩
+
+/-- the former statement of `raw_identifier_signature_every_depth` (arbitrary `hc'`) is false once defaults may be
+    configuration objects. -/
+theorem every_depth_needs_defaults_separated (hc : HC Nat) (hinj : ∀ a b, hc.H a = hc.H b → a = b)
+    (hemb : ∀ d, hc.emb d = [256 + d]) :
+    LibTyped libSep (gSep 5) ∧ LibTyped libSep (gSep 7) ∧ (gSep 5).size + 1 < 2^64 ∧ (gSep 7).size + 1 < 2^64 ∧
+    rawId hc (gSep 5) 0 = rawId hc (gSep 7) 0 ∧ rawId collHC (gSep 5) 0 ≠ rawId collHC (gSep 7) 0 := by
+  refine ⟨libTyped_sep 5, libTyped_sep 7, by decide, by decide, ?_, by decide⟩
+  rw [rawId_sep hc hinj hemb 5 (by decide), rawId_sep hc hinj hemb 7 (by decide)]
+
+/-- … and `collHC` indeed violates `DefaultsSeparated` on the first graph. -/
+example : ¬ DefaultsSeparated idealHC collHC (gSep 5) := by
+  intro h
+  have h1 := h 3 [] 0 aX (List.Mem.head _) 1 (by simp [dfltAll, aX, refsAll, refsVal]) 2 (by decide)
+  rw [ceqAt_off_stack idealHC (gSep 5) 3 [0] 1 2 (by decide) (by decide),
+    rawAt_sep_B idealHC 5 2 [0] 1 (.inl rfl), rawAt_sep_B idealHC 5 2 [0] 2 (.inr rfl)] at h1
+  simp only [idealHC_emb, beq_iff_eq, cons.injEq, and_true] at h1
+  have : sB 5 = sB 1 := idealHC_inj _ _ (by simpa using h1)
+  exact absurd this (by decide)
 
 /-! ## boundary of the domain -/
 
@@ -267,10 +468,11 @@ example : LibTyped libEx gEx ∧ gEx.size + 1 < 2^64 := by
     (`bytesLe` is a total order), so it applies with `hc' := expandHC`. -/
 example (hc : HC Nat) (hinj : ∀ a b, hc.H a = hc.H b → a = b) (hemb : ∀ d, hc.emb d = [256 + d])
     (lib : List Nat → List Nat → STy) (g1 g2 : Graph) (hg1 : LibTyped lib g1) (hg2 : LibTyped lib g2)
+    (hd1 : DefaultsSeparated hc expandHC g1) (hd2 : DefaultsSeparated hc expandHC g2)
     (hz1 : g1.size + 1 < 2^64) (hz2 : g2.size + 1 < 2^64) (n1 n2 : Nat)
     (h : fullId hc g1 n1 = fullId hc g2 n2) : fullId expandHC g1 n1 = fullId expandHC g2 n2 :=
   full_identifier_signature_every_depth hc hinj hemb expandHC bytesLe_total bytesLe_trans bytesLe_antisymm
-    lib g1 g2 hg1 hg2 hz1 hz2 n1 n2 h
+    lib g1 g2 hg1 hg2 hd1 hd2 hz1 hz2 n1 n2 h
 
 /-! Not formalised as such: the `SigTree` data type of DESIGN §4 (`ident_injective : full g₁ n₁ = full g₂ n₂ →
     fullSig g₁ n₁ = fullSig g₂ n₂`).  It is replaced by the equivalent hash-independent statements
